@@ -17,6 +17,7 @@
   shows at the source" holds in it by construction; on the implementation it is established by
   the harness (probe edit after every successful copy + step-by-step agreement) — partial by tie.
 -/
+import YtkModel.Generated.Constants
 import YtkProofs.Patch
 
 namespace Ytk.C09
@@ -216,5 +217,11 @@ theorem nonvacuous_historical :
     patchDo (mk "test" none (some ["b"]) (some (.cont [("x", l "1")]))) exDoc = (exDoc, .err) ∧
     patchDo (mk "test" none (some ["b"]) (some (.cont [("x", l "1"), ("y", l "2")]))) exDoc = (exDoc, .ok ()) := by
   decide
+
+/-- Tie to the source text (regenerated on every run): the operation names. -/
+theorem source_constants :
+    Generated.const? "patch.OpAdd" = some "add" ∧ Generated.const? "patch.OpRemove" = some "remove" ∧
+    Generated.const? "patch.OpReplace" = some "replace" ∧ Generated.const? "patch.OpMove" = some "move" ∧
+    Generated.const? "patch.OpCopy" = some "copy" ∧ Generated.const? "patch.OpTest" = some "test" := by decide
 
 end Ytk.C09
